@@ -32,6 +32,8 @@ _add(3, 3, 0b110, 1, 0, 0, Q, cmask=0b011, maxsize=3100)   # size limit cuts the
 _add(3, 3, 0b101, 0, 1, 0, Q, cmask=0b110)
 _add(3, 3, 0b111, 1, 0, 0, Q, flow=1, reach=("end", "second height", "replacement"))                       # aggchain-prover flow: proofs may end before the requested block; retries resend the same range
 _add(3, 3, 0b011, 0, 1, 0, Q, flow=1, cmask=0b100)
+_add(3, 3, 0b000, 1, 0, 0, Q, flow=1, cmask=0b110, reach=("end",))   # claims only: the prover's shorter range must cut the claims too
+_add(3, 4, 0b1000, 0, 0, 0, T, flow=1, cmask=0b0110)
 _add(4, 4, 0b1111, 1, 1, 0, T, prefix=1, flow=1)
 _add(4, 4, 0b1111, 1, 1, 0, T, prefix=2, flow=1)
 _add(4, 3, 0b101, 0, 0, 0, T, prefix=1, flow=1, cmask=0b010)
